@@ -5,7 +5,7 @@
 //! Oracle: a generic walk over the serialised TIR (knows nothing of `Composite`).
 
 use super::c13;
-use crate::common::canon::unresolved;
+use crate::common::canon::unresolved_tx as unresolved;
 use crate::common::pipeline::{base_address, compiler, lower_source, PP};
 use crate::common::store::MemStore;
 use crate::common::tirb;
